@@ -83,6 +83,13 @@ var c11Patches = []c11Patch{
 		Text: "@@\n@@\n+import \"" + c11Q + "\"\n\n-legacyLimit\n+bar.Limit\n",
 		Plus: []impSpec{{"", c11Q}}, Pre: "const legacyLimit = 3\n\n",
 		Site: func(n string, r *rand.Rand) string { return "legacyLimit" }},
+	// patches without import lines whose code is spelled like an import path or an import name: imports are not code
+	{Name: "string-like-import-path", Action: "none",
+		Text: "@@\n@@\n-\"" + c11P + "\"\n+\"example.com/elsewhere\"\n",
+		Site: func(n string, r *rand.Rand) string { return "\"" + c11P + "\"" }},
+	{Name: "identifier-like-import-name", Action: "none",
+		Text: "@@\n@@\n-f\n+renamedF\n\n@@\n@@\n-foo\n+renamedFoo\n",
+		Site: func(n string, r *rand.Rand) string { return n + ".Thing" }},
 	{Name: "add-named", Action: "add-named",
 		Text: "@@\nvar x expression\n@@\n+import nb \"" + c11Q + "\"\n\n-legacy(x)\n+nb.New(x)\n",
 		Plus: []impSpec{{"nb", c11Q}},
